@@ -26,13 +26,16 @@ func init() {
 			idx := errorIndex(fn.Signature)
 			// default region: return blocks with a definitely non-nil error whose set contains an invalid type
 			var def iset
-			for _, rp := range returnPoints(fn, idx) {
+			for _, rp := range returnPaths(fn) {
 				b := rp.from
-				s := sets[b].intersect(rng(0, 255))
+				if idx >= len(rp.vals) {
+					continue
+				}
+				s := rp.pathSet(sets, trackValue(ty)).intersect(rng(0, 255))
 				if !rng(255, 255).subsetOf(s) || s.equal(rng(0, 255)) {
 					continue // not type-dependent (e.g. the depth-limit error)
 				}
-				if definitelyNonNilErr(rp.val, b) {
+				if definitelyNonNilErr(rp.vals[idx], b) {
 					def = def.union(s)
 				} else {
 					r.Bad(fname(fn), "default", rp.ret.Pos(), "an unknown wire type (e.g. 255) can reach a return without error: the field is not skipped and the reader is desynchronised")
